@@ -62,6 +62,9 @@ CLAIMED = {
  "C04": ("path-sensitive abstract interpretation (errpath) of every evaluation call in the interpreter (no error lost), structural rules on the try runtime (defer placement, dominating nil fact, classification gate decided path-sensitively, control dependence of name binding)",
          "Decides the error-path clauses on every path of the interpreter's source: for each of ~150 Eval/Validate/Run calls a non-nil error is returned or inspected; finally is one deferred evaluation registered before the body; otherwise only where the body's error is nil; "
          "control signals bypass the except dispatch on every path; an except child's token value is bound as a variable only under a test of its kind. Branch selection, the loop protocol and range arithmetic are runtime values and not decided.", "3/C04"),
+ "C03": ("extraction of the repository's grammar and provider tables from SSA, relation checks against the precedence classes of the language reference, shape rules on the Pratt functions, closure matching on type-checked syntax, failure-edge analysis of operand assertions, errpath for error propagation",
+         "Precedence and associativity are entirely a property of one table and three expressions (the Pratt loop is generic): decided exhaustively over the table (68 entries, 6 classes) and the shapes of run/ldInfix/ndPrefix. The operator table is matched operator by operator (25 closures) against the reference; "
+         "operand assertions are comma-ok with the matching kind error naming the same operand; evaluation errors propagate on every path. Float results, number lexing and layout are values and not decided.", "3/C03"),
 }
 
 NOT_YET = "check not built yet in this session (see DESIGN.md section 3 for the planned static rule)"
